@@ -179,6 +179,45 @@ def build_harness():
     return run(["go", "test", "-c", "-tags", "verif", "-o", HARNESS_BIN, "."], cwd=src, env=goenv(), timeout=1800)
 
 
+RACE_BIN = os.path.join(os.path.dirname(HARNESS_BIN), "nleharness.race.test")
+
+
+def build_harness_race():
+    src = os.path.join(VERIF, "harness")
+    return run(["go", "test", "-c", "-race", "-tags", "verif", "-o", RACE_BIN, "."], cwd=src, env=goenv(), timeout=1800)
+
+
+def run_race(seed, ms, tier, outdir, procs):
+    """Run the concurrent API driver under the race detector in `procs` processes (seeds seed*100+k) and return
+    (reports-json-list, races) where races are the normalised reports of bin/racereport."""
+    import subprocess as sp
+    os.makedirs(outdir, exist_ok=True)
+    ps = []
+    for k in range(procs):
+        d = os.path.join(outdir, f"race{k}")
+        os.makedirs(d, exist_ok=True)
+        env = goenv({"NLE_MODE": "race", "NLE_SEED": str(seed * 100 + k), "NLE_N": str(ms), "NLE_TIER": tier, "NLE_OUT": d,
+                     "GORACE": f"log_path={d}/r halt_on_error=0 history_size=5"})
+        ps.append((d, sp.Popen([RACE_BIN, "-test.run", "^TestNLE$", "-test.timeout", "0"], cwd=os.path.join(VERIF, "harness"), env=env,
+                               stdout=sp.PIPE, stderr=sp.STDOUT, text=True)))
+    reports, races, outs = [], [], []
+    for d, pr in ps:
+        try:
+            out, _ = pr.communicate(timeout=ms / 1000 * 6 + 600)
+        except sp.TimeoutExpired:
+            pr.kill(); out = "race run timed out"
+        outs.append(out)
+        rp = os.path.join(d, "race.json")
+        if os.path.exists(rp):
+            reports.append(json.load(open(rp)))
+        rc, txt = run([os.path.join(VERIF, "bin", "racereport"), d], timeout=300)
+        for line in txt.splitlines():
+            line = line.strip()
+            if line.startswith("{"):
+                races.append(json.loads(line))
+    return reports, races, outs
+
+
 def run_harness(modes, seed, n, tier, outdir, extra_env=None, timeout=3600, race=False):
     os.makedirs(outdir, exist_ok=True)
     env = goenv({"NLE_MODE": ",".join(modes), "NLE_SEED": str(seed), "NLE_N": str(n), "NLE_TIER": tier,
